@@ -542,6 +542,41 @@ fn parwrite_case(cx: &mut Ctx, env: &mut Env, fmt: Fmt, data: &Vec<Rec>, shards:
     }
 }
 
+/// parallel writers under a compression extension: the file must read back (whole and streamed) exactly like
+/// the sequentially written one. Oracle only (the codec layer is modelled in C10).
+fn parwrite_codec_case(cx: &mut Ctx, env: &mut Env, fmt: Fmt, data: &Vec<Rec>, shards: Option<usize>, codec: &str, via_pc: bool) {
+    let par = env.fresh(&format!("{}.{codec}", fmt.ext()));
+    let seq = env.fresh(&format!("{}.{codec}", fmt.ext()));
+    let r = guarded(|| {
+        if via_pc {
+            let p = Pipeline::default();
+            let pc = from_vec(&p, data.clone());
+            match fmt { Fmt::Jsonl => pc.write_jsonl_par(&par, shards), _ => pc.write_csv_par(&par, shards, fmt.hdr()) }
+        } else {
+            match fmt { Fmt::Jsonl => write_jsonl_par(&par, data, shards), _ => write_csv_par(&par, data, shards, fmt.hdr()) }
+        }
+    });
+    let idx = cx.case(format!("ORACLE-ONLY parwrite-codec {} n={} shards={} codec={codec} via={}", fmt.name(), data.len(), opt_shards(shards), if via_pc { "pc" } else { "fn" }), "-".into(), data.len() >= 2);
+    cx.count(&format!("parwrite-codec:{}:{codec}", fmt.name()));
+    match r {
+        Err(m) => cx.oracle_fail(idx, "par-writer-panics", m),
+        Ok(Err(e)) => cx.oracle_fail(idx, "par-writer-errors", format!("{e:#}")),
+        Ok(Ok(_)) => {
+            write_seq(fmt, &seq, data).expect("sequential writer");
+            let a = guarded(|| read_whole(fmt, &par));
+            let b = guarded(|| read_whole(fmt, &seq));
+            match (a, b) {
+                (Ok(Ok(x)), Ok(Ok(y))) if same(&x, &y) && same(&x, data) => {}
+                (Ok(Ok(x)), Ok(Ok(y))) => cx.oracle_fail(idx, "par-compressed-file-reads-back-differently", format!("parallel-written file: {} records, sequentially written: {}, expected {}", x.len(), y.len(), data.len())),
+                (x, _) => cx.oracle_fail(idx, "par-compressed-file-reads-back-differently", format!("parallel-written file unreadable: {:?}", x.map(|r| r.map(|v| v.len()).map_err(|e| format!("{e:#}"))))),
+            }
+        }
+    }
+    if let Ok(d) = std::fs::read_dir(env.dir.path()) {
+        for e in d.filter_map(Result::ok) { if e.path().is_file() { let _ = std::fs::remove_file(e.path()); } }
+    }
+}
+
 // ---------------------------------------------------------------- JSONLRD (byte level, blank lines, malformed)
 
 fn jsonlrd_case(cx: &mut Ctx, env: &mut Env, bytes: &[u8], per: usize) {
@@ -788,6 +823,15 @@ pub fn run(cx: &mut Ctx) {
         parwrite_case(cx, &mut env, Fmt::Jsonl, &data, s, true);
         parwrite_case(cx, &mut env, Fmt::CsvH, &data, s, false);
     }
+    // parallel writers under every compression extension (small n x shard counts), oracle only
+    for codec in ["gz", "zst", "bz2", "xz"] {
+        for (n, s) in [(0usize, Some(2usize)), (1, Some(1)), (7, Some(3)), (7, Some(1)), (9, None), (5, Some(9))] {
+            let data = gen_recs(cx, n);
+            parwrite_codec_case(cx, &mut env, Fmt::Jsonl, &data, s, codec, false);
+            parwrite_codec_case(cx, &mut env, Fmt::CsvH, &data, s, codec, false);
+            parwrite_codec_case(cx, &mut env, Fmt::Jsonl, &data, s, codec, true);
+        }
+    }
     for gf in [Fmt::Jsonl, Fmt::CsvH, Fmt::Parquet] {
         // component-wise path order differs from string order here ('-' < '.' < '/')
         let e = gf.ext();
@@ -876,6 +920,10 @@ pub fn run(cx: &mut Ctx) {
         if !(via_pc && wf != Fmt::Jsonl) { cands.push(Some(usize::MAX)); }
         let s = *cx.rng.pick(&cands);
         parwrite_case(cx, &mut env, wf, &data, s, via_pc);
+        if cx.rng.chance(1, 4) {
+            let codec = *cx.rng.pick(&["gz", "zst", "bz2", "xz"]);
+            parwrite_codec_case(cx, &mut env, wf, &data, s, codec, via_pc);
+        }
         // multi-row-group parquet
         if cx.rng.chance(1, 3) && n > 0 {
             let mut sizes = vec![];
